@@ -100,6 +100,7 @@ class Body:
         self._resolving = None
         self._mut = None
         self._ba = None
+        self.__dict__.pop("_rl_cache", None)
 
     def _split_reassigned(self):
         """normal form of the MIR used by every analysis: materialised booleans threaded (purlsa.thread), re-assigned user
@@ -404,9 +405,21 @@ class Body:
         return t
 
     def _resolve_local(self, local, _stack=None):
+        # memoised when the term is closed (contains no cycle marker, whose meaning depends on the resolution stack)
+        cache = self.__dict__.setdefault("_rl_cache", {})
+        if local in cache:
+            return cache[local]
+        c0 = self.__dict__.get("_cycle_hits", 0)
+        t = self._resolve_local_uncached(local, _stack)
+        if self.__dict__.get("_cycle_hits", 0) == c0:
+            cache[local] = t
+        return t
+
+    def _resolve_local_uncached(self, local, _stack=None):
         if _stack is None:
             _stack = ()
         if local in _stack:
+            self.__dict__["_cycle_hits"] = self.__dict__.get("_cycle_hits", 0) + 1
             return ("cycle", local)
         if 1 <= local <= self.arg_count:
             # arguments may be reassigned, but not in this code base's MIR; check
